@@ -385,13 +385,16 @@ class Interp:
         if z3.is_false(z3.simplify(last)):
             return False
         key = tuple(f.get_id() for f in pc)
-        if key in self._feas_cache:
+        strong = getattr(self, '_strong_prune', 0) > 0
+        if key in self._feas_cache and (self._feas_cache[key][2] or not strong):
             return self._feas_cache[key][0]
         s = z3.Solver()
         # a deterministic resource limit decides how long a feasibility check may take, NOT the wall clock: the set of explored
         # paths (and so the verdict) must not depend on how busy the machine is.  The wall-clock timeout is only a safety net.
-        s.set('rlimit', self.prune_rlimit)
-        s.set('timeout', max(20000, self.prune_timeout_ms * 50))
+        # (the guard of a loop that is being unrolled gets ten times the budget: an undecided guard there means another
+        # iteration, and after 40 of them the function is given up as outside reach)
+        s.set('rlimit', self.prune_rlimit * (10 if strong else 1))
+        s.set('timeout', max(20000, self.prune_timeout_ms * 50) * (4 if strong else 1))
         # quantified lemma axioms only slow a satisfiability check down; dropping them weakens
         # the query, which is sound for pruning (unsat of a subset => unsat of the whole)
         s.add(*[f for f in pc if not z3.is_quantifier(f)])
@@ -401,7 +404,7 @@ class Interp:
             self.stats['prune_unknown'] += 1
         res = r != z3.unsat
         # the formulas are kept alive with the entry: z3 AST ids are recycled after garbage collection
-        self._feas_cache[key] = (res, list(pc))
+        self._feas_cache[key] = (res, list(pc), r != z3.unknown or strong)
         return res
 
     def split(self, st, cond):
@@ -1904,6 +1907,23 @@ class Interp:
                 return list(o.items)
             if isinstance(o, HDict):
                 return [k for k, _ in o.items]
+            if isinstance(o, HObj) and '.' in o.cls and not o.cls.startswith(('opaque:', 'ext.')):
+                # old sequence protocol: a class without __iter__ whose __getitem__ is `return self.<attr>[idx]` over a
+                # list of known length iterates exactly over that list (IndexError at the end stops the iteration)
+                try:
+                    it_m = self.find_method(o.cls, '__iter__')
+                    gi = self.find_method(o.cls, '__getitem__') if it_m is None else None
+                except EngineLimit:
+                    gi = None
+                fn = getattr(gi, 'node', None)
+                body = [b for b in (fn.body if fn is not None else []) if not (isinstance(b, ast.Expr) and isinstance(b.value, ast.Constant))]
+                if fn is not None and len(fn.args.args) == 2 and len(body) == 1 and isinstance(body[0], ast.Return):
+                    r = body[0].value
+                    if isinstance(r, ast.Subscript) and isinstance(r.value, ast.Attribute) and isinstance(r.value.value, ast.Name) \
+                            and r.value.value.id == fn.args.args[0].arg and isinstance(r.slice, ast.Name) and r.slice.id == fn.args.args[1].arg:
+                        inner = o.fields.get(r.value.attr)
+                        if isinstance(inner, Ref) and isinstance(st.heap[inner.addr], HList):
+                            return list(st.heap[inner.addr].items)
         if isinstance(it, SRange):
             a, b, s = it.conc()
             if a is not None:
@@ -2456,7 +2476,12 @@ class Interp:
             if isinstance(c, Raise):
                 yield st1, ('raise', c.exc)
                 continue
-            for st1b, t in self.branch(st1, c):
+            self._strong_prune = getattr(self, '_strong_prune', 0) + (1 if k >= 3 else 0)
+            try:
+                branches = list(self.branch(st1, c))
+            finally:
+                self._strong_prune -= (1 if k >= 3 else 0)
+            for st1b, t in branches:
                 if not t:
                     if node.orelse:
                         yield from self.ex(node.orelse, st1b)
